@@ -99,7 +99,8 @@ pub fn arrays() -> Vec<Value> {
         json!(["a", "b"]), json!([[1, 2], [3]]), json!([{}]), json!(["1"]), json!([1.5]), json!([" 2 "]), json!([10]),
         json!([9]), json!([true]), json!([[1]]), json!([null, 1]), json!(["0x10"]), json!([1, [2, [3]]]),
         Value::Array(vec![fl(-0.0)]), Value::Array(vec![fl(1.0)]), json!(["a"]), json!([[], []]), json!([false]),
-        Value::Array(vec![fl(1e21)]), json!(["Infinity"]),
+        Value::Array(vec![fl(1e21)]), json!(["Infinity"]), json!([1, []]), json!([[], "a", []]), json!([[[]], "x"]), json!([1, [], 2]), json!([1, 2, 3]),
+        json!([true, false]), json!([[1, 5]]), json!(["3px", 5]),
     ]
 }
 
